@@ -15,7 +15,11 @@ RULE = ("four streams, all from one PRNG: (1) kernel inputs for mutational_area 
         "x breaks x quantile_width x max_shape for piecewise_scale_posterior; (4) real ExpectationPropagation states "
         "(msprime, 2-7 samples, EP iterations 1-5, phased/unphased singletons) x rescale_intervals x "
         "rescale_iterations x rescale_segsites x max_shape through ExpectationPropagation.rescale with every kernel "
-        "call recorded. Non-trivial: >= 2 epochs and an edge of positive length / a free point / a free row / a "
+        "call recorded; 30% with the options passed as np.int32/np.int64/np.bool_/np.float64, 30% with rescale() called a "
+        "second time on the same object (each call checked against its own state before). About 45% of all tree "
+        "sequences (streams 1 and 4) carry vlib.gen.exotic decorations: extra node flag bits, all nodes renumbered at "
+        "random, mutations above local roots, mutation-free sites, unknown mutation times, arbitrary allele states, "
+        "populations; stream 1 also uses valid times moved to a coarse grid (ties at non-zero ages). Non-trivial: >= 2 epochs and an edge of positive length / a free point / a free row / a "
         "successful rescale with a free node; distinct by content hash")
 ASSUME = [
     "_fixed_changepoints (C26), count_mutations (C24), reallocate_unphased (C23), hypergeo._gammainc_inv and "
@@ -29,7 +33,6 @@ ASSUME = [
 LEVEL = "proof"
 
 TS_TOL = {"rel": 1e-12, "abs_": 0.0}      # mutational_timescale: np.sum order (see ASSUME)
-GLUE_TOL = {"rel": 1e-9}                  # rescale() as a whole (DESIGN C25: 1e-9)
 ORACLE_REL = 1e-9
 
 
@@ -103,6 +106,8 @@ def kernel_block(ctx, model_ok, n):
                   "liks": c["liks"][:6], "max_intervals": c["max_intervals"],
                   "timescale": ts if isinstance(ts, str) else [x[:6] for x in ts]},
                  nontrivial=ne >= 2 and pos >= 1, kind="kernel/" + c["kind"])
+        for k in c.get("exotic", []):
+            ctx.tally("kernel/exotic:" + k)
         oracle_area(ctx, c, a)
         oracle_timescale(ctx, c, a, cps, ts)
 
@@ -238,43 +243,49 @@ def ep_case(rng):
                             L=rng.choice([20, 100, 1000]), mu=None)
         if ts.num_mutations >= 1:
             break
+    ts, kinds = K.maybe_exotic(rng, ts)
     L = ts.sequence_length
     opts = {"mu": rng.choice([0.3, 1.0, 3.0]) / L, "ep_iterations": rng.choice([1, 2, 5]),
             "max_shape": rng.choice([1000.0, 1000.0, 50.0, 5.0]), "singletons_phased": phased,
-            "rescale_intervals": rng.choice([1, 2, 3, 5, 1000, 1000]), "rescale_iterations": rng.choice([1, 2, 3, 10]),
-            "rescale_segsites": rng.random() < 0.3, "quantile_width": rng.choice([0.5, 0.5, 0.2])}
+            "rescale_intervals": rng.choice([1, 2, 3, 5, 1000, 1000]), "rescale_iterations": rng.choice([1, 1, 2, 3, 10]),
+            "rescale_segsites": rng.random() < 0.4, "quantile_width": rng.choice([0.5, 0.5, 0.2]),
+            "numpy_typed": rng.random() < 0.3,       # options passed as np.int64 / np.int32 / np.bool_ / np.float64
+            "second_call": rng.random() < 0.3,       # rescale() called twice on the same object
+            "exotic": kinds}
     return ts, opts
 
 
-def run_ep(ts, o):
-    """-> dict with the state before/after rescale and the recorded kernel calls"""
-    ep = K.ep_fit(None, ts, o["mu"], o["ep_iterations"], o["max_shape"], o["singletons_phased"])
+def rescale_kwargs(o):
+    kw = dict(rescale_intervals=o["rescale_intervals"], rescale_iterations=o["rescale_iterations"],
+              rescale_segsites=o["rescale_segsites"], quantile_width=o["quantile_width"], max_shape=o["max_shape"])
+    if o.get("numpy_typed"):
+        kw = dict(rescale_intervals=np.int32(kw["rescale_intervals"]), rescale_iterations=np.int64(kw["rescale_iterations"]),
+                  rescale_segsites=np.bool_(kw["rescale_segsites"]), quantile_width=np.float64(kw["quantile_width"]),
+                  max_shape=np.float64(kw["max_shape"]))
+    return kw
+
+
+def snapshot(ep):
     fixed = [bool(x) for x in (ep.node_constraints[:, 0] == ep.node_constraints[:, 1])]
-    m0 = [float(x) for x in ep.node_moments()[0]]
-    mm0 = [float(x) for x in ep.mutation_moments()[0]]
-    st, calls = K.ep_rescale_record(ep, rescale_intervals=o["rescale_intervals"], rescale_iterations=o["rescale_iterations"],
-                                    rescale_segsites=o["rescale_segsites"], quantile_width=o["quantile_width"],
-                                    max_shape=o["max_shape"])
-    return {"status": st, "calls": calls, "fixed": fixed, "m0": m0, "mm0": mm0,
-            "m1": [float(x) for x in ep.node_moments()[0]], "mm1": [float(x) for x in ep.mutation_moments()[0]],
-            "post1": np.array(ep.node_posterior), "mpost1": np.array(ep.mutation_posterior),
-            "parent": [int(x) for x in ep.edge_parents], "child": [int(x) for x in ep.edge_children]}
+    return fixed, [float(x) for x in ep.node_moments()[0]], [float(x) for x in ep.mutation_moments()[0]]
 
 
-def ep_glue_item(run):
-    """inputs of Rescale.ep_rescale_breaks from the recorded calls (None when a changepoint vector is unusable)"""
-    tcalls = [c for c in run["calls"] if c[0] == "mutational_timescale"]
-    if not tcalls:
-        return None
-    cpss = []
-    for _nm, args, _res in tcalls:
-        _case, _area, cps = K.changepoints_of_call(args)
-        if cps is None:
-            return None
-        cpss.append(cps)
-    liks = [[float(a), float(b)] for a, b in tcalls[0][1][1]]
-    return {"means": run["m0"], "fixed": run["fixed"], "liks": liks, "parent": run["parent"], "child": run["child"],
-            "cpss": cpss}
+def run_ep(ts, o):
+    """-> list of runs (one per rescale() call on the SAME object): the state before/after and the
+    recorded kernel calls"""
+    ep = K.ep_fit(None, ts, o["mu"], o["ep_iterations"], o["max_shape"], o["singletons_phased"])
+    runs = []
+    for _call in range(2 if o.get("second_call") else 1):
+        fixed, m0, mm0 = snapshot(ep)
+        st, calls = K.ep_rescale_record(ep, **rescale_kwargs(o))
+        _f, m1, mm1 = snapshot(ep)
+        runs.append({"status": st, "calls": calls, "fixed": fixed, "m0": m0, "mm0": mm0, "m1": m1, "mm1": mm1,
+                     "post1": np.array(ep.node_posterior), "mpost1": np.array(ep.mutation_posterior),
+                     "parent": [int(x) for x in ep.edge_parents], "child": [int(x) for x in ep.edge_children],
+                     "call": _call})
+        if st != "ok":
+            break
+    return runs
 
 
 def oracle_ep(ctx, desc, run):
@@ -333,7 +344,12 @@ def oracle_ep(ctx, desc, run):
     for i, f in enumerate(fixed):
         if f:
             continue
-        if any(K.close(last_in[i], o, rel=1e-12) for o in last_origin):
+        # only where it is unambiguous: np.unique keeps ONE original time per rescaled value, so a node
+        # whose (rescaled or previous) time coincides with another free node's up to rounding is skipped
+        crowded = any(j != i and not fixed[j] and (K.close(xfinal[j], xfinal[i], rel=1e-9, abs_=1e-9 * top)
+                                                   or K.close(last_in[j], last_in[i], rel=1e-9))
+                      for j in range(len(fixed)))
+        if not crowded and any(K.close(last_in[i], o, rel=1e-12) for o in last_origin):
             if not K.close(m1[i], xfinal[i], rel=1e-7, abs_=1e-9 * top):
                 ctx.oracle_fail("ep-recovery", "posterior mean of a node on a rescaling break differs from its rescaled point estimate",
                                 dict(rp, node=i, mean=m1[i], point=xfinal[i]))
@@ -353,31 +369,63 @@ def ep_block(ctx, model_ok, n):
         ts, o = ep_case(ctx.rng)
         desc = {"tables": gen.ts_tables_dict(ts), "opts": o}
         try:
-            run = run_ep(ts, o)
+            rr = run_ep(ts, o)
         except Exception as e:  # noqa  (EP itself failing is not this property's business)
             ctx.tally("ep/fit-failed:" + type(e).__name__)
             continue
-        runs.append((desc, run, gen.ts_summary(ts)))
+        for run in rr:
+            runs.append((dict(desc, call=run["call"]), run, gen.ts_summary(ts)))
+        for k in o["exotic"]:
+            ctx.tally("ep/exotic:" + k)
     if model_ok:
-        items, idx = [], []
-        for k, (_d, run, _s) in enumerate(runs):
-            it = ep_glue_item(run)
-            if it is not None:
-                items.append(it)
-                idx.append(k)
-        model = K.model_ep_breaks(ctx, items) if items else []
-        for k, it, m in zip(idx, items, model):
-            desc, run, _s = runs[k]
+        # (a) every iteration of the loop, from the node times the implementation had at that point
+        sitems, sref = [], []
+        ritems, rref = [], []
+        for k, (desc, run, _s) in enumerate(runs):
+            steps = K.loop_steps(run["calls"], run["fixed"], run["parent"], run["child"])
+            if steps is None:
+                continue
+            ecalls = [c for c in run["calls"] if c[0] == "piecewise_scale_point_estimate"]
             pcalls = [c for c in run["calls"] if c[0] == "piecewise_scale_posterior"]
-            if not pcalls:
-                ok = m is None and run["status"] != "ok"
-                got = run["status"]
+            # chaining: iteration 0 starts from the posterior means, iteration j+1 from the output of j
+            chain = bool(steps) and K.close_list(steps[0]["t"], run["m0"])
+            for j in range(1, len(steps)):
+                prev = steps[j - 1]["pe_res"]
+                chain = chain and prev is not None and not isinstance(prev, Exception) \
+                    and K.close_list(steps[j]["t"], [float(v) for v in prev])
+            ctx.corr("ExpectationPropagation.rescale loop chaining", chain, "iteration inputs are not the previous outputs",
+                     replay={"input": desc})
+            pick = steps if (ctx.tier == "thorough" or len(steps) <= 3) else [steps[0], steps[1], steps[-1]]
+            for st in pick:          # quick tier: first, second and last iteration (all are chained above)
+                sitems.append(st)
+                sref.append(desc)
+            # (b) the breakpoint recovery, from the recorded final times
+            if len(ecalls) > len(steps) or pcalls:
+                last = steps[-1]
+                if last["pe_res"] is not None and not isinstance(last["pe_res"], Exception) \
+                        and not isinstance(last["ts_res"], Exception):
+                    rec = ecalls[len(steps)] if len(ecalls) > len(steps) else None
+                    ritems.append({"means": run["m0"], "fixed": run["fixed"], "x": [float(v) for v in last["pe_res"]],
+                                   "rb": [float(v) for v in last["ts_res"][1]]})
+                    rref.append((desc, rec, pcalls))
+        sm = K.model_steps(ctx, sitems) if sitems else []
+        for st, desc, m in zip(sitems, sref, sm):
+            ctx.corr("ExpectationPropagation.rescale iteration", K.step_agrees(st, m, **TS_TOL),
+                     "impl=%r model=%r" % ((st["ts_res"], st["pe_res"]), m),
+                     replay={"input": desc, "step": {k: st[k] for k in ("t", "cps", "liks", "fixed", "parent", "child")}, "model": m})
+        rm = K.model_recover(ctx, ritems) if ritems else []
+        for it, (desc, rec, pcalls), m in zip(ritems, rref, rm):
+            if rec is None or isinstance(rec[2], Exception):
+                ok, got = m is None, "raised"
             else:
-                ob, rb = [float(x) for x in pcalls[0][1][2]], [float(x) for x in pcalls[0][1][3]]
-                got = (ob, rb)
-                ok = m is not None and K.close_list(ob, m[0], **GLUE_TOL) and K.close_list(rb, m[1], **GLUE_TOL)
-            ctx.corr("ExpectationPropagation.rescale breaks", ok, "impl=%r model=%r" % (got, m),
-                     replay={"input": desc, "glue": it, "impl": got, "model": m})
+                got = [float(v) for v in rec[2]]
+                ok = m is not None and K.close_list(got, m, **TS_TOL)
+                if ok and pcalls:       # and these are the breaks both posterior calls receive
+                    for pc in pcalls:
+                        ok = ok and K.close_list([float(v) for v in pc[1][2]], got) \
+                            and K.close_list([float(v) for v in pc[1][3]], it["rb"])
+            ctx.corr("ExpectationPropagation.rescale breakpoint recovery", ok, "impl=%r model=%r" % (got, m),
+                     replay={"input": desc, "recover": it, "model": m})
         # the two posterior calls of each run against the model, through the recorded tables
         pcases = []
         for desc, run, _s in runs:
@@ -388,7 +436,7 @@ def ep_block(ctx, model_ok, n):
                          "qw": float(args[4]), "ms": float(args[5])}
                     got = [None if (math.isnan(a) and math.isnan(b)) else (float(a), float(b)) for a, b in res]
                     pcases.append((c, got))
-        pcases = pcases[: ctx.n(60, 400)]
+        pcases = pcases[: ctx.n(40, 400)]
         reruns = [K.run_posterior(c) for c, _g in pcases]
         pm = K.model_posterior(ctx, [c for c, _g in pcases], [(g, f) for _r, g, f in reruns]) if pcases else []
         for (c, got), (res, g, f), m in zip(pcases, reruns, pm):
@@ -400,7 +448,8 @@ def ep_block(ctx, model_ok, n):
         ctx.case({"stream": "ep", "ts": summ, "opts": desc["opts"], "status": run["status"],
                   "means_before": run["m0"][:8], "means_after": run["m1"][:8]},
                  nontrivial=run["status"] == "ok" and free >= 1,
-                 kind="ep/" + ("ok" if run["status"] == "ok" else "rejected"))
+                 kind="ep/" + ("ok" if run["status"] == "ok" else "rejected") + ("/second-call" if run["call"] else "")
+                 + ("/numpy-typed" if desc["opts"].get("numpy_typed") else ""))
         oracle_ep(ctx, desc, run)
 
 
@@ -409,7 +458,7 @@ def run(ctx, model_ok=True):
     kernel_block(ctx, model_ok, ctx.n(90, 600))
     point_block(ctx, model_ok, ctx.n(150, 1000))
     posterior_block(ctx, model_ok, ctx.n(60, 400))
-    ep_block(ctx, model_ok, ctx.n(40, 300))
+    ep_block(ctx, model_ok, ctx.n(32, 300))
 
 
 def search(ctx):
@@ -429,7 +478,8 @@ def replay(ctx, data):
     before = len(ctx.oracle_fails)
     if "input" in case:                                   # an ExpectationPropagation.rescale run
         ts = gen.ts_from_dict(case["input"]["tables"])
-        oracle_ep(ctx, case["input"], run_ep(ts, case["input"]["opts"]))
+        for run in run_ep(ts, case["input"]["opts"]):
+            oracle_ep(ctx, case["input"], run)
     else:
         c = case.get("case", case)
         if "posts" in c:
